@@ -94,9 +94,12 @@ CLAIMED["C05"] = dict(
          "NOTIFIED->IDLE or wait, store IDLE, empty trigger, drain) over both event states (bit set with 8-bit words, counting set) for ANY number of notifiers, ANY programs, EVERY "
          "schedule: no phantom ids, never more occurrences than sent, merged but never dropped, conservation for the counting set, and the wake-up invariant. The full no-lost-wake-up "
          "statement is FALSE: a machine-checked reachable deadlock (listener asleep, NOTIFIED state, empty trigger, undelivered id) that replays on the real code (known finding); "
-         "the partial theorems state exactly which step loses the signal. Tied to /repo by atomic-step traces including blocking waits.",
+         "the partial theorems state exactly which step loses the signal. Tied to /repo by atomic-step traces including blocking waits. Above the hand-shake, an L1 model of the "
+         "Notifier / Listener PORTS (registries, connections refreshed inside notify, lifecycle events, node death and cleanup) for EVERY reachable history: a notify reaches exactly the "
+         "attached listeners, an id stays pending until the listener's next wait whatever happens in between, waits report only what was sent, each id once.",
     note="Trusted: Lean kernel + 3 standard axioms; hand-written L2 model (tie = trace comparison under a serialising scheduler, SC interleavings; all hand-shake operations are SeqCst "
-         "in the source); the trigger back-ends are represented by a counter (trace trigger composed with the real EventImpl); time-outs are not modelled.",
+         "in the source); the trigger back-ends are represented by a counter (trace trigger composed with the real EventImpl); time-outs are not modelled. The port-level L1 model is tied by a "
+         "differential run of the real ports (local and ipc, 1..4 nodes), where every call is one atomic step.",
     technique="Lean 4 proof (wake-up invariant over an interleaving semantics + machine-checked counterexample) + atomic-step trace correspondence",
     design="DESIGN.md §5 C05")
 CLAIMED["C14"] = dict(
@@ -178,10 +181,13 @@ CLAIMED["C08"] = dict(
          "iff fewer than max_loaned_samples loans are out, a refused loan changes nothing; the completion queue never fills (sub+borrow+comp <= cap+max_borrowed), so a release always "
          "returns the chunk; creating a publisher/subscriber succeeds iff a registry slot is free and a refused creation leaves the world exactly as it was; registries never exceed the "
          "limits; no API call panics as long as the application holds at most max_borrowed samples per subscriber. Without that discipline a fatal panic is reachable and the borrow limit "
-         "is per connection, not per subscriber: both machine-checked with concrete histories (known findings D19/D20).",
+         "is per connection, not per subscriber: both machine-checked with concrete histories (known findings D19/D20). With `override_sample_preallocation` (outside `Cfg.Sane`) "
+         "the model says exactly when a loan runs out of memory. EVENT pattern (L1 model of the real Notifier / Listener ports): creating a notifier / listener / opening from a further "
+         "node succeeds iff a slot is free, with the documented error otherwise and no effect; limits never exceeded; a dropped port's slot is usable again; an event id above "
+         "event_id_max_value is refused and delivered to nobody.",
     note="Trusted: Lean kernel + 3 standard axioms; hand-written L1 model (tie = differential run of the real ports: exhaustive short histories, random, saturation histories that keep buffers, "
-         "borrows, history and loans full; oracles on the implementation alone: OOM, panic, per-subscriber borrow count). Publish-subscribe only: request-response limits are exercised by C11, "
-         "event/blackboard limits are not covered.",
+         "borrows, history and loans full; oracles on the implementation alone: OOM, panic, per-subscriber borrow count). Publish-subscribe and event; request-response limits are exercised by C11, "
+         "blackboard limits are not covered.",
     technique="Lean 4 proof (five-part inductive invariant: registries, connections, publisher memory accounting, subscriber storage) + differential correspondence model vs implementation",
     design="DESIGN.md §5 C08")
 CLAIMED["C06"] = dict(
@@ -244,10 +250,11 @@ CLAIMED["C17"] = dict(
          "else is still alive; once every object is dropped — in ANY order, whatever happened in between — nothing the application created remains except possibly the node's empty directory, "
          "and that remains only when a port-side object released the last reference to the node (the full `nothing remains` statement is FALSE: machine-checked history = known finding D22); "
          "while a port (or one of its loans / samples) lives, its data segment, port tag, the service's files and the node's files all exist, even after node and service handle were dropped; "
-         "a connection never outlives both of its ports; every theorem of C01/C02/C08 applies to the survivors (`reach_pubsub`).",
+         "a connection never outlives both of its ports; every theorem of C01/C02/C08 applies to the survivors (`reach_pubsub`). The same for the event pattern (L1 event-ports model): "
+         "what is left after everything was dropped is exactly the directories of the nodes whose last owner was a port; dropping a handle leaves every port alone.",
     note="Trusted: Lean kernel + 3 standard axioms; hand-written model (tie = the real ipc service: all 720 permutations of the drop order of a 6-object graph x 2 configurations + random graphs, "
-         "the set of existing resources by kind compared after every single drop; local variant for behaviour/panics); publish-subscribe only, one node; the other patterns' object graphs "
-         "(event, request-response, blackboard, wait-set guards) are not enumerated.",
+         "the set of existing resources by kind compared after every single drop; local variant for behaviour/panics); publish-subscribe (one node) and event (1..2 nodes); the other patterns' object graphs "
+         "(request-response, blackboard, wait-set guards) are not enumerated.",
     technique="Lean 4 proof (life-cycle view invariant on top of the C02 invariant; refutation by a concrete history) + differential correspondence over all drop-order permutations",
     design="DESIGN.md §5 C17")
 NOT_YET = {}
